@@ -46,8 +46,9 @@ ASSIGNS = {
 
 NOT_COVERED = [
     "that flax.serialization restores every leaf bit-for-bit and handles MaskedNode/empty lists (library behaviour, assumed; B5 samples it)",
-    "determinism of XLA across process restarts; compile-level effects (F16-like: NumPy leaves closed over by lax.cond branches become "
-    "XLA constants) — no frame or value contract on the repository's functions can express them; reached only by the bounded harness B5",
+    "determinism of XLA across process restarts; that XLA evaluates a traced region with operands exactly as the eager ops do "
+    "(the closure-capture rule covers the F16/F23 class: restored NumPy leaves captured by lax.cond / lax.while_loop bodies; "
+    "other compile-level effects are reached only by the bounded harness B5)",
     "static (pytree_node=False) fields are checked by the bounded harness only",
 ]
 
@@ -149,11 +150,50 @@ def t_alias_ds(ctx, it):
   ctx.oblige("alias:distributed_shampoo.update_fn: no in-place write reaches a state leaf", True, kind="frame")
 
 
+def mk_alias_ds_cfg(cname, tname):
+  """Every option combination of the C07 grid, with interval > 1 for statistics and preconditioners (so that every
+  conditional region is present), run on a state whose leaves are caller-owned NumPy arrays (what from_bytes
+  returns): no in-place write reaches a leaf, and no traced region computes on a captured leaf."""
+
+  def t(ctx, it):
+    from contracts import c07
+    m = it.load_module("precondition.distributed_shampoo")
+    it.call_contracts["matrix_inverse_pth_root"] = c07.root_contract_for(m)
+    it.call_contracts["power_iteration"] = c07.pi_contract
+    it.explanatory_asserts.add("assert#0@distributed_shampoo.<locals>.precond_dim")
+    cfg = dict(c07.CONFIGS[cname])
+    cfg.setdefault("statistics_compute_steps", 2)
+    cfg.setdefault("preconditioning_compute_steps", 2)
+    try:
+      opt = c07.build(m, cfg)
+      params = {k: T.opaque("p_" + k, s_) for k, s_ in c07.TREES[tname].items()}
+      grads = {k: T.opaque("g_" + k, s_) for k, s_ in c07.TREES[tname].items()}
+      st = own(opt.init(params), "distributed shampoo state leaf")
+      _, st1 = opt.update(grads, st, params)
+      opt.update(grads, own(st1, "distributed shampoo state leaf"), params)
+    except c07.ALLOWED as e:
+      ctx.oblige(f"alias:distributed_shampoo[{cname}]: configuration rejected with an explanatory error", bool(str(e)), kind="frame")
+      return
+    except AssertionError as e:
+      if str(e):
+        ctx.oblige(f"alias:distributed_shampoo[{cname}]: configuration rejected with an explanatory error", True, kind="frame")
+        return
+      raise
+    ctx.oblige(f"alias:distributed_shampoo[{cname}].update_fn: restored NumPy leaves are neither written in place nor computed on as "
+               "captured constants of a traced region", True, kind="frame")
+
+  return t
+
+
 def tasks(tier):
   ts = [Task(f"frame[{m.split('.', 1)[1]}]", mk_frame(m)) for m in MODULES]
   ts += [Task("alias[tearfree.sketchy]", t_alias_sketchy), Task("alias[tearfree.shampoo]", t_alias_shampoo),
          Task("alias[sm3]", t_alias_sm3), Task("alias[tearfree.grafting+momentum]", t_alias_grafting),
          Task("alias[distributed_shampoo]", t_alias_ds)]
+  from contracts import c07
+  for cname in c07.CONFIGS:
+    for tname in (("mixed",) if tier == "quick" else ("mixed", "matrix+scalar", "rank3")):
+      ts.append(Task(f"alias[distributed_shampoo:{cname},{tname}]", mk_alias_ds_cfg(cname, tname)))
   return ts
 
 
